@@ -108,6 +108,8 @@ func Main() {
 	lap("parts-exhaustive")
 	r.Cases("parts-random", r.N(300, 30000), core.Opts{Workers: 16}, randomCase)
 	lap("parts-random")
+	r.Cases("parts-concurrent", r.N(48, 1500), core.Opts{Workers: 8}, concurrentCase)
+	lap("parts-concurrent")
 
 	log.Root().SetHandler(log.DiscardHandler())
 	// The chains run the product's own goroutines (transaction pool, chain), so these groups run in
@@ -150,6 +152,7 @@ func Main() {
 	r.Floor("bogus_rejected", 10000)
 	r.Floor("genuine_added_after_bogus_for_same_slot", 1000)
 	r.Floor("complete_sets_read_back", 1000)
+	r.Floor("concurrent_sets_read_back", 300)
 	r.Floor("valid_blocks", 200)
 	r.Floor("tampered_blocks_with_more_than_128_txs", 1)
 	r.Floor("valid_blocks_with_evidence", 30)
